@@ -13,7 +13,7 @@ COMMON_ASSUME = [
 
 PROPS = {
     "C01": dict(
-        specs=["packer", "avp", "avp_types"],
+        specs=["packer", "avp", "avp_types", "avp_grouped"],
         ground=[ground.c01_dictionary, ground.c01_struct_layouts, ground.c01_structure],
         replay=replay.generic,
         trusted_base=["T-struct: struct.pack/unpack = abstract big-endian word codecs (cross-checked natively on every run)",
@@ -58,7 +58,7 @@ PROPS = {
     ),
     "C04": dict(
         specs=["packer", "avp", "avp_types", "avp_grouped", "base", "node_model", "family", "c03"],
-        ground=[ground.c01_struct_layouts],
+        ground=[ground.c01_struct_layouts, ground.c03_untyped_names, ground.c04_avp_name_writers],
         replay=replay.generic,
         trusted_base=["T-struct, T-sock, T-utf8, T-time raise conditions of the stdlib calls used by the getters"],
         assumptions=COMMON_ASSUME + [
@@ -362,7 +362,7 @@ PROPS = {
         explanation="contracts of stop(), the stopping guards and the flush branch.",
     ),
     "C19": dict(
-        specs=["packer", "avp", "avp_types", "avp_grouped", "base", "node_model", "peer", "helpers", "c20", "family", "node", "c13", "c19", "c06"],
+        specs=["packer", "avp", "avp_types", "avp_grouped", "base", "node_model", "peer", "helpers", "c20", "family", "node", "c13", "c15", "c19", "c06"],
         ground=[], replay=replay.generic,
         trusted_base=["socket / thread environment models; PeerConnection.__init__ starts two workers (assumed constructor contract)"],
         assumptions=COMMON_ASSUME + [
@@ -382,7 +382,7 @@ PROPS = {
         explanation="release postconditions per function.",
     ),
     "C06": dict(
-        specs=["packer", "avp", "avp_types", "avp_grouped", "base", "node_model", "peer", "helpers", "c20", "family", "node", "c13", "c15", "c18", "c06"],
+        specs=["packer", "avp", "avp_types", "avp_grouped", "base", "node_model", "peer", "helpers", "c20", "family", "node", "c13", "c15", "c18", "c19", "c06"],
         ground=[], replay=replay.generic,
         trusted_base=["time.time() non-decreasing"],
         assumptions=COMMON_ASSUME + [
@@ -416,28 +416,47 @@ PROPS = {
     ),
     "C03": dict(
         specs=["packer", "avp", "avp_types", "avp_grouped", "base", "node_model", "family", "node", "c08", "c03"],
-        ground=[ground.c03_tables, ground.c01_dictionary],
-        replay=replay.generic, category="other",
-        trusted_base=["the rows are evaluated on the imported real modules (exhaustive enumeration of a finite table)"],
+        ground=[ground.c03_tables, ground.c01_dictionary, ground.c03_untyped_names, ground.c04_avp_name_writers],
+        replay=replay.generic, category="proof",
+        trusted_base=["the rows are evaluated on the imported real modules (exhaustive enumeration of a finite table)",
+                      "T-fmt: plain f-strings (the row key f'{code}-{vendor}') are injective in their pieces"],
         assumptions=COMMON_ASSUME + [
-            "NOT PROVED: the parametric round trip (generate_avps_from_defs / assign_attr_from_defs: set attributes -> exactly "
-            "one AVP each -> decoded back, encode-decode-encode = encode) and the attribute exposure of untyped commands "
-            "(_assign_attr_values) use getattr/setattr with computed names and recursion over containers; they are covered "
-            "only by a BOUNDED stand-in (props/bounded.py: every concrete command class x every row with one type-directed "
-            "value, list attributes of 2 elements, nested containers to depth 3, one undeclared vendor AVP, one untyped "
-            "command with repeated AVPs whose first value is falsy); reported under coverage.bounded and never counted as "
-            "discharged obligations"],
+            "NOT MECHANISED: the composition of the three proved parts - (a) generate_avps_from_defs emits, per row, AVPs that "
+            "carry the row's code/vendor/M bit with the attribute's value handed to the typed setter, (b) the C01 codecs are "
+            "inverse per type, (c) assign_attr_from_defs stores, per AVP, the decoded value under the attribute of the row that "
+            "declares the AVP's code and vendor (list attributes in wire order, undeclared AVPs appended unchanged) - into the "
+            "whole-message statement 'decode restores every set attribute and encode-decode-encode = encode' is an induction "
+            "over the AVP list that is argued in DESIGN.md, not discharged; the BOUNDED stand-in (props/bounded.py: every "
+            "concrete command class x every row with one type-directed value, lists of 2, nesting <= 3, one undeclared vendor "
+            "AVP, one untyped command with repeated AVPs) exercises exactly that composition on the real modules and is "
+            "reported under coverage.bounded, never counted as discharged obligations",
+            "ASSUMED: container classes (AvpGenDef.type_class) are dataclasses whose constructor takes no argument, raises "
+            "nothing and builds its default lists itself; setattr with a computed name stores exactly that attribute; reading "
+            "`avp.value` is a function of the AVP object, its payload and its member cache (Avp.value#tok - each typed getter "
+            "is verified against a contract of that shape under C01/C04); ownership: a list held in an attribute of a container "
+            "is younger than the container and is not the AVP list being processed"],
         bounded=[bounded.c03_round_trip],
-        level_text="Partial: (ground, exhaustive over all 2821 rows of all command classes and grouped containers) every declared "
-                   "attribute denotes exactly one dictionary AVP, a grouped one exactly when it has a container class, no two "
-                   "rows of a class denote the same AVP or share a name; (deductive) validate_message_avps names exactly the "
-                   "required-and-unset rows, and every generated __post_init__ of the typed command classes only touches the "
-                   "header code/flags, the AVP list and the object's own attributes and raises only AvpDecodeError. The "
-                   "value round-trip clauses of the property are only checked by a bounded stand-in on the real modules "
-                   "(all classes x all rows x one value, depth 3), not proved; hence category `other`.",
-        level_note="Table well-formedness exhaustively; round trip by a labelled bounded stand-in only (not proved).",
-        explanation="Exhaustive ground rows over the real attribute tables plus the contracts that consume those tables; the "
-                    "generate/assign round trip of C03 is covered by a bounded stand-in only (coverage.bounded), by no obligation.",
+        level_text="Deductive proof of per-function contracts on the real code plus exhaustive ground rows: (ground, all 2821 "
+                   "rows of all command classes and grouped containers) every declared attribute denotes exactly one "
+                   "dictionary AVP, a grouped one exactly when it has a container class, no two rows of a class denote the same "
+                   "AVP or share a name, list-annotated attributes start as lists, no row shadows the undeclared-AVP lists, no "
+                   "normalised AVP name shadows a message attribute; (deductive, encode side) generate_avps_from_defs: per row, "
+                   "every emitted AVP carries the row's code, vendor, V and M bits, an unset attribute emits nothing, a set "
+                   "scalar attribute exactly one AVP, earlier AVPs stay, undeclared AVPs follow unchanged; (deductive, decode "
+                   "side) assign_attr_from_defs: per AVP of the list, the row looked up declares that AVP's code and vendor, a "
+                   "scalar attribute receives the decoded value (None on a decode error), a list attribute is appended to at the "
+                   "end, a grouped AVP becomes a new container of the row's class filled by the recursive call, an undeclared "
+                   "AVP is appended unchanged to additional_avps, no other attribute changes, only AvpDecodeError escapes; "
+                   "(deductive, untyped commands) UndefinedMessage._assign_attr_values: every AVP is exposed under "
+                   "name.replace('-','_').lower(), a repetition turns the attribute into a list in wire order, grouped AVPs "
+                   "become new nested objects, the AVP list itself is unchanged; validate_message_avps and the generated "
+                   "__post_init__ family. The whole-message round trip is the composition of these with the C01 codecs; that "
+                   "composition is argued, and exercised by a labelled bounded stand-in, not discharged.",
+        level_note="Per-function proofs of both directions and of the untyped exposure; table well-formedness exhaustively; the "
+                   "composition into encode-decode-encode = encode is argued + bounded stand-in (not counted as proved).",
+        explanation="Exhaustive ground rows over the real attribute tables; functional contracts (loop step clauses over a "
+                    "value-carrying open attribute store) on generate_avps_from_defs, assign_attr_from_defs and "
+                    "UndefinedMessage._assign_attr_values; bounded stand-in for the composed round trip.",
     ),
 }
 
@@ -446,3 +465,14 @@ PROPS = {
 for _pid, _cfg in PROPS.items():
     if "node" in _cfg["specs"] and ground.c13_tables_assigned_once not in _cfg["ground"]:
         _cfg["ground"] = list(_cfg["ground"]) + [ground.c13_tables_assigned_once]
+
+# the control-flow skeleton of one round of the I/O loop (timer sweep, reconnect, both socket sweeps run unconditionally) is
+# what "at the next timer check" / "dialled again" / "no worker stops" refer to: part of the checks whose statements use it
+for _pid in ("C06", "C11", "C12", "C14", "C18", "C05", "C15"):
+    if ground.node_round_structure not in PROPS[_pid]["ground"]:
+        PROPS[_pid]["ground"] = list(PROPS[_pid]["ground"]) + [ground.node_round_structure]
+
+# the codec keeps no state between calls (frame condition for objects outside the heap model): part of every codec property
+for _pid in ("C01", "C02", "C03", "C04", "C20"):
+    if ground.message_statelessness not in PROPS[_pid]["ground"]:
+        PROPS[_pid]["ground"] = list(PROPS[_pid]["ground"]) + [ground.message_statelessness]
